@@ -22,9 +22,13 @@ KINDS = {
     "badser": ("badser", []),
     "falsy": ("ret1", []),
     "retfault": ("retfault", []),
+    "cyclic": ("cyclic", []),      # results whose conversion fails: self-referencing, too deep, refused by the JSON serialiser only
+    "deepret": ("deepret", []),
+    "badkeys": ("badkeys", []),
     "sysexit": ("sysexit", []),  # only sent to worlds with the default dispatch (see cases_single)
 }
 IDS = [i for i in B.IDS if i is not ABSENT]
+UNCONVERTIBLE = [(k, rid, form) for k in ("cyclic", "deepret", "badkeys") for rid, form in ((4, "2.0"), ("u", "1.0"), (0, "2.0"))]
 WORLDS = [(v, True, d, inst) for v in (2.0, 1.0) for d, inst in (
     ("default", None), ("custom-ok", None), ("custom-raise", None), ("default", "dispatching"))] + [(2, True, "default", None), (1, True, "custom-ok", None),
                                        (2.0, True, "default+handlers", None), (1.0, True, "custom-ok+handlers", None)]
@@ -47,8 +51,10 @@ def cases_single(tier):
         for rid in IDS + [ABSENT]:
             for form in ("2.0", "1.0"):
                 body = B.dumps(entry(kind, rid, form))
-                for w in WORLDS:
-                    if kind == "sysexit" and (w[2].split("+")[0] != "default" or w[3] is not None):
+                for w in WORLDS + [(2.0, False, "default", None), (1.0, False, "default", None)]:
+                    if kind in ("sysexit", "cyclic", "deepret", "badkeys") and (w[2].split("+")[0] != "default" or w[3] is not None):
+                        continue
+                    if kind == "badser" and not w[1]:
                         continue
                     yield (w, body)
     for t in B.TOPLEVEL:
@@ -77,6 +83,14 @@ def cases_batch(tier):
             ws = WORLDS if n < 3 or tier == "thorough" else (WORLDS[0], WORLDS[3], WORLDS[5], WORLDS[6])
             for w in ws:
                 yield (w, body)
+    # results whose conversion fails, next to ordinary entries, with class translation on and off
+    for k, rid, form in UNCONVERTIBLE:
+        for i in QUICK_ALPHA:
+            for order in (0, 1):
+                e = entry(k, rid, form)
+                pair = [e, ALPHA[i]] if order else [ALPHA[i], e]
+                for w in (WORLDS[0], WORLDS[4], (2.0, False, "default", None), (1.0, False, "default", None)):
+                    yield (w, B.dumps(pair))
     # a callable leaving through SystemExit, next to ordinary entries (default dispatch only)
     for sx in SYSEXIT:
         for i in QUICK_ALPHA:
